@@ -10,7 +10,7 @@ git -C /repo worktree add -q --detach $WT HEAD || exit 2
 cp /repo/include/SQuIDS/version.h $WT/include/SQuIDS/ 2>/dev/null
 NAMES="$*"; [ -z "$NAMES" ] && NAMES=$(ls seeded | grep -v '^_')
 for n in $NAMES; do
-  if ! git -C $WT apply --3way seeded/$n/patch.diff 2>/dev/null && ! git -C $WT apply seeded/$n/patch.diff 2>/dev/null; then echo "SEEDED $n: patch no longer applies to the current tree"; git -C $WT checkout -q -- . ; git -C $WT reset -q --hard; continue; fi
+  if ! git -C $WT apply /verif/seeded/$n/patch.diff 2>/dev/null; then echo "SEEDED $n: patch no longer applies to the current tree"; git -C $WT checkout -q -- . ; git -C $WT reset -q --hard; continue; fi
   for c in $(python3 -c "import json;print(' '.join(json.load(open('seeded/$n/meta.json'))['caught_by']))"); do
     res=$(VERIF_REPO=$WT VERIF_OUT=/tmp/mutout ./check $c 2>&1 | grep -E "^(OK|FAIL|INCONCLUSIVE)" | cut -c1-60)
     echo "SEEDED $n [$c]: $res"
